@@ -24,12 +24,12 @@
 //! a version mentions exactly the markers of that version's text, and one exists for `max`; every handler
 //! future completes (else exit 2).
 //!
-//! Known findings (`/verif/known-findings.txt`): `stale-kept:syntax-error` is switched off in the generator (the latest
-//! text of an open document is never broken); the two `stale-overwrite:*` signatures are schedule-dependent and
-//! cannot be avoided without giving up every non-trivial schedule, so a failing case whose shape matches the recorded
-//! root cause (the stale version's publish follows the newer version's / the close's publish) is counted under
-//! `excluded_by_known_finding` instead of reported; any other signature is a VIOLATION. `VERIF_C18_STRICT=1`
-//! disables all of this (used for mutants built on top of the proposed fix).
+//! History: the three defects this check found (`stale-overwrite:newer-change`, `stale-overwrite:after-close`,
+//! `stale-kept:syntax-error`) were fixed in /repo commit dcfca60; their canonical inputs in `known/C18/*.json` are
+//! replayed as regression cases at the start of every run and judged like any generated case. No signature is
+//! tolerated after the fact. Should an `open:` line for `stale-kept:syntax-error` ever be recorded again, the
+//! generator switches that construct off by construction (latest text of an open document never broken) and counts
+//! it; schedule-dependent signatures cannot be avoided by construction and are always reported.
 
 use futures::future::BoxFuture;
 use futures::stream::StreamExt;
@@ -78,6 +78,10 @@ struct Op {
     broken: Broken,
     /// number of dependency files the text imports (1 or 2): one publish, i.e. one possible yield, per dependency
     deps: u8,
+    /// other documents of the case this text imports (copy of `Case::imports[uri]`): those files exist on disk AND are
+    /// opened/changed/closed in the editor by the history, so the importer's analysis reads their in-memory text and
+    /// publishes diagnostics for them
+    imports: Vec<usize>,
 }
 
 /// How handlers get polled.
@@ -109,8 +113,60 @@ enum Act {
 struct Case {
     n_uris: usize,
     exec: Exec,
+    /// imports[u] = documents of the case imported by every text of document u (acyclic: only higher indices)
+    imports: Vec<Vec<usize>>,
     ops: Vec<Op>,
     sched: Vec<Act>,
+}
+
+const NAMES: [&str; 8] = ["a", "b", "c", "d", "e", "f", "g", "h"];
+
+/// Import topologies over up to 3 documents (0 = independent documents).
+fn topology(t: u8, n_uris: usize) -> Vec<Vec<usize>> {
+    let mut im = vec![Vec::new(); n_uris];
+    match (n_uris, t % 6) {
+        (2, 1..=5) => im[0] = vec![1],
+        (3, 1) => im[0] = vec![1],
+        (3, 2) => im[0] = vec![1, 2],
+        (3, 3) => {
+            im[0] = vec![1];
+            im[1] = vec![2];
+        }
+        (3, 4) => {
+            im[0] = vec![2];
+            im[1] = vec![2];
+        }
+        (3, 5) => {
+            im[0] = vec![1, 2];
+            im[1] = vec![2];
+        }
+        _ => {}
+    }
+    im
+}
+
+impl Case {
+    /// documents reachable from u through imports (u excluded)
+    fn reach(&self, u: usize) -> BTreeSet<usize> {
+        let mut seen = BTreeSet::new();
+        let mut stack: Vec<usize> = self.imports.get(u).cloned().unwrap_or_default();
+        while let Some(x) = stack.pop() {
+            if seen.insert(x) {
+                stack.extend(self.imports.get(x).cloned().unwrap_or_default());
+            }
+        }
+        seen
+    }
+    /// is u imported (transitively) by another document of the case?
+    fn imported(&self, u: usize) -> bool {
+        (0..self.n_uris).any(|w| w != u && self.reach(w).contains(&u))
+    }
+}
+
+/// On-disk content of the document files (needed so that imports of them resolve; the editor versions replace it
+/// while the document is open).
+fn disk_text(u: usize) -> String {
+    format!("pub def helper_{}() -> int:\n    return 0\n", NAMES[u])
 }
 
 fn marker_names(op: &Op) -> Vec<String> {
@@ -126,11 +182,16 @@ fn text_of(op: &Op) -> String {
     if op.deps >= 2 {
         s.push_str("from dep2 import helper2\n");
     }
+    for j in &op.imports {
+        s.push_str(&format!("from doc_{0} import helper_{0}\n", NAMES[*j]));
+    }
     s.push('\n');
     for m in marker_names(op) {
         s.push_str(&format!("def f_{m}() -> int:\n    return {m}\n\n"));
     }
-    s.push_str(&format!("def g{n}() -> int:\n    return helper() + V{n}\n"));
+    s.push_str(&format!("pub def helper_{}() -> int:\n    return {n}\n\n", NAMES[op.uri]));
+    let extra: String = op.imports.iter().map(|j| format!(" + helper_{}()", NAMES[*j])).collect();
+    s.push_str(&format!("def g{n}() -> int:\n    return helper() + V{n}{extra}\n"));
     match op.broken {
         Broken::No => {}
         Broken::Syntax => s.push_str("\ndef broken(:\n    return 1\n"),
@@ -149,6 +210,7 @@ const DEP2_SOURCE: &str = "pub def helper2() -> int:\n    return 2\n";
 fn case_to_json(c: &Case) -> Value {
     json!({
         "uris": c.n_uris,
+        "imports": c.imports,
         "executor": match c.exec { Exec::Free => "free", Exec::Loop => "loop" },
         "history": c.ops.iter().map(|o| json!({
             "uri": o.uri,
@@ -188,6 +250,7 @@ fn case_from_json(v: &Value) -> Option<Case> {
                 _ => Broken::No,
             },
             deps: o["deps"].as_u64().unwrap_or(1).clamp(1, 2) as u8,
+            imports: Vec::new(),
         });
     }
     let mut sched = Vec::new();
@@ -212,7 +275,22 @@ fn case_from_json(v: &Value) -> Option<Case> {
         return None;
     }
     let exec = if v["executor"].as_str() == Some("loop") { Exec::Loop } else { Exec::Free };
-    Some(Case { n_uris, exec, ops, sched })
+    let mut imports: Vec<Vec<usize>> = vec![Vec::new(); n_uris];
+    if let Some(a) = v["imports"].as_array() {
+        for (u, l) in a.iter().enumerate().take(n_uris) {
+            for j in l.as_array().cloned().unwrap_or_default() {
+                let j = j.as_u64()? as usize;
+                if j <= u || j >= n_uris {
+                    return None; // acyclic by construction: only higher indices
+                }
+                imports[u].push(j);
+            }
+        }
+    }
+    for o in ops.iter_mut() {
+        o.imports = imports[o.uri].clone();
+    }
+    Some(Case { n_uris, exec, imports, ops, sched })
 }
 
 // ------------------------------------------------------------------------------------------------ generator
@@ -220,7 +298,9 @@ fn case_from_json(v: &Value) -> Option<Case> {
 /// Build a protocol-valid history from raw material (construction, not rejection): the first notification for a
 /// URI is an open, an open document is changed or closed, a closed one is reopened; versions are the 1-based
 /// position in the history, hence strictly increasing (globally and per URI).
-fn build_case(n_uris: usize, free: bool, raw_ops: Vec<(u8, u8, u8)>, raw_sched: Vec<(u8, u16)>, allow_broken_latest: bool) -> (Case, u64) {
+fn build_case(n_uris: usize, topo: u8, free: bool, raw_ops: Vec<(u8, u8, u8)>, raw_sched: Vec<(u8, u16)>, allow_broken_latest: bool) -> (Case, u64) {
+    let imports = topology(topo, n_uris);
+    let is_dep: Vec<bool> = (0..n_uris).map(|u| imports.iter().any(|l| l.contains(&u))).collect();
     let mut open = vec![false; n_uris];
     let mut ops: Vec<Op> = Vec::new();
     for (i, (u, k, t)) in raw_ops.iter().enumerate() {
@@ -241,16 +321,18 @@ fn build_case(n_uris: usize, free: bool, raw_ops: Vec<(u8, u8, u8)>, raw_sched: 
                 3..=5 => 1,
                 _ => 2,
             };
-            let broken = match t / 8 {
-                0..=28 => Broken::No,
-                29..=30 => Broken::Syntax,
+            // texts of documents that others import flip their lex/parse status more often (a dependency's parse
+            // status is what importers report about it)
+            let broken = match (t / 8, is_dep[uri]) {
+                (0..=28, false) | (0..=21, true) => Broken::No,
+                (29..=30, false) | (22..=28, true) => Broken::Syntax,
                 _ => Broken::Lex,
             };
             // a broken text carries no semantic markers (analysis stops before the type checker)
             (if broken == Broken::No { markers } else { 0 }, broken)
         };
         let deps = if kind != Kind::Close && *k % 4 == 3 { 2 } else { 1 };
-        ops.push(Op { uri, kind, version: i as i32 + 1, markers, broken, deps });
+        ops.push(Op { uri, kind, version: i as i32 + 1, markers, broken, deps, imports: imports[uri].clone() });
     }
     // known finding `stale-kept:syntax-error` switches the construct off: the latest text of an open document is
     // never broken
@@ -273,23 +355,24 @@ fn build_case(n_uris: usize, free: bool, raw_ops: Vec<(u8, u8, u8)>, raw_sched: 
             _ => Act::Drain,
         })
         .collect();
-    (Case { n_uris, exec: if free { Exec::Free } else { Exec::Loop }, ops, sched }, excluded)
+    (Case { n_uris, exec: if free { Exec::Free } else { Exec::Loop }, imports, ops, sched }, excluded)
 }
 
 fn case_strategy(allow_broken_latest: bool, force: Option<Exec>) -> impl Strategy<Value = (Case, u64)> {
     (
-        1usize..=2,
+        1usize..=3,
+        0u8..6,
         any::<bool>(),
         proptest::collection::vec((any::<u8>(), any::<u8>(), any::<u8>()), 2..=10),
         proptest::collection::vec((0u8..10, any::<u16>()), 0..=40),
     )
-        .prop_map(move |(n, free, ops, sched)| {
+        .prop_map(move |(n, topo, free, ops, sched)| {
             let free = match force {
                 Some(Exec::Free) => true,
                 Some(Exec::Loop) => false,
                 None => free,
             };
-            build_case(n, free, ops, sched, allow_broken_latest)
+            build_case(n, topo, free, ops, sched, allow_broken_latest)
         })
 }
 
@@ -303,6 +386,8 @@ struct Msg {
     version: Option<i64>,
     markers: BTreeSet<String>,
     n_diags: usize,
+    /// diagnostics whose message mentions no marker (lex/parse errors, "Failed to parse dependency ..", ..)
+    n_unmarked: usize,
 }
 
 #[derive(Clone, Debug, Default)]
@@ -323,6 +408,8 @@ struct Run {
     completed: Vec<usize>,
     /// a handler completed while an older handler for the same URI was still in flight
     overtakes: u32,
+    /// a handler for a document completed while an older handler of a document that imports it was still in flight
+    dep_overtakes: u32,
     max_in_flight: usize,
     polls: u32,
     hung: bool,
@@ -346,8 +433,8 @@ struct Harness {
 }
 
 fn uri_of(dir: &Path, u: usize) -> String {
-    let name = ["a", "b", "c", "d", "e", "f", "g", "h"][u];
-    tower_lsp::lsp_types::Url::from_file_path(dir.join(format!("{name}.incn"))).map(|u| u.to_string()).unwrap_or_default()
+    let name = NAMES[u];
+    tower_lsp::lsp_types::Url::from_file_path(dir.join(format!("doc_{name}.incn"))).map(|u| u.to_string()).unwrap_or_default()
 }
 
 fn poll_once(f: &mut Fut) -> Poll<Result<Option<Response>, ExitedError>> {
@@ -396,7 +483,7 @@ impl Harness {
         match self.socket.poll_next_unpin(&mut cx) {
             Poll::Ready(Some(req)) => {
                 let method = req.method().to_string();
-                let mut m = Msg { method, uri: None, other_uri: false, version: None, markers: BTreeSet::new(), n_diags: 0 };
+                let mut m = Msg { method, uri: None, other_uri: false, version: None, markers: BTreeSet::new(), n_diags: 0, n_unmarked: 0 };
                 if m.method == "textDocument/publishDiagnostics" {
                     if let Some(p) = req.params() {
                         let u = p["uri"].as_str().unwrap_or("");
@@ -406,7 +493,14 @@ impl Harness {
                         if let Some(ds) = p["diagnostics"].as_array() {
                             m.n_diags = ds.len();
                             for d in ds {
-                                scan_markers(d["message"].as_str().unwrap_or(""), &mut m.markers);
+                                let before = m.markers.len();
+                                let mut own = BTreeSet::new();
+                                scan_markers(d["message"].as_str().unwrap_or(""), &mut own);
+                                if own.is_empty() {
+                                    m.n_unmarked += 1;
+                                }
+                                m.markers.extend(own);
+                                let _ = before;
                             }
                         }
                     }
@@ -438,10 +532,11 @@ impl Harness {
 fn describe(m: &Msg) -> String {
     if m.method == "textDocument/publishDiagnostics" {
         format!(
-            "publishDiagnostics uri={} version={:?} diags={} markers={:?}",
+            "publishDiagnostics uri={} version={:?} diags={} unmarked={} markers={:?}",
             m.uri.map(|u| u.to_string()).unwrap_or_else(|| "dep".into()),
             m.version,
             m.n_diags,
+            m.n_unmarked,
             m.markers
         )
     } else {
@@ -530,6 +625,9 @@ fn execute_inner(case: &Case, dir: &Path, want_trace: bool, run: &mut Run) {
                     n_completed += 1;
                     if in_flight.iter().any(|f| f.id < id && case.ops[f.id].uri == case.ops[id].uri) {
                         run.overtakes += 1;
+                    }
+                    if in_flight.iter().any(|f| f.id < id && case.reach(case.ops[f.id].uri).contains(&case.ops[id].uri)) {
+                        run.dep_overtakes += 1;
                     }
                     if h.want_trace {
                         run.trace.push(format!("  #{id} completed{}", if res.is_err() { " (service exited)" } else { "" }));
@@ -943,28 +1041,49 @@ fn judge(case: &Case, run: &Run) -> Vec<Fail> {
             }
         }
 
-        // ---- diagnostics carrying a version were computed from that version's text
+        // ---- diagnostics carrying a version were computed from that version's text — whoever published them (the
+        //      document's own analysis, or the analysis of a document that imports it). Admissible reports for text v:
+        //      * v does not lex/parse: a non-empty list without any marker (both publishers report the lex/parse errors);
+        //      * v parses: the full report (exactly the markers of v; diagnostics without a marker only if a document
+        //        reachable through v's imports has a version that does not parse — "Failed to parse dependency ..",
+        //        unresolved imported names), or the EMPTY list when the document is imported by another one (an
+        //        importer's analysis reports the parse status of its open dependencies: "parsed, nothing to report").
+        //      Anything else — markers of another version, lex/parse errors under a version that parses, an empty
+        //      list under a version that does not parse — was not computed from that version's text.
+        let imported = case.imported(u);
+        let dep_may_break = case.reach(u).iter().any(|w| case.ops.iter().any(|o| o.uri == *w && o.broken != Broken::No));
         for (_, m) in &pubs {
             let Some(v) = m.version else { continue };
-            match versions.get(&(v as i32)) {
-                None => fails.push(Fail {
+            let Some(op) = versions.get(&(v as i32)) else {
+                fails.push(Fail {
                     key: "diagnostics:unknown-version".into(),
                     what: format!("uri {u}: publishDiagnostics for version {v} which was never sent for this uri"),
-                }),
-                Some(op) => {
-                    let want: BTreeSet<String> = marker_names(op).into_iter().collect();
-                    if m.markers != want {
-                        fails.push(Fail {
-                            key: "diagnostics:wrong-text".into(),
-                            what: format!("uri {u}: publishDiagnostics version {v} mentions {:?}, text of version {v} has {:?}", m.markers, want),
-                        });
-                    } else if op.broken != Broken::No && m.n_diags == 0 {
-                        fails.push(Fail {
-                            key: "diagnostics:wrong-text".into(),
-                            what: format!("uri {u}: publishDiagnostics version {v} is empty, text of version {v} has a {:?} error", op.broken),
-                        });
-                    }
+                });
+                continue;
+            };
+            let want: BTreeSet<String> = marker_names(op).into_iter().collect();
+            let foreign: Vec<&String> = m.markers.difference(&want).collect();
+            let mut bad: Option<String> = None;
+            if !foreign.is_empty() {
+                bad = Some(format!("mentions {:?}, text of version {v} has {:?}", m.markers, want));
+            } else if op.broken != Broken::No {
+                if m.n_diags == 0 {
+                    bad = Some(format!("is empty, text of version {v} has a {:?} error", op.broken));
                 }
+            } else if m.n_diags == 0 {
+                if !want.is_empty() && !imported {
+                    bad = Some(format!("is empty, text of version {v} has {:?} (and no other document imports this one)", want));
+                }
+            } else if m.markers != want {
+                bad = Some(format!("mentions {:?}, text of version {v} has {:?}", m.markers, want));
+            } else if m.n_unmarked > 0 && !dep_may_break {
+                bad = Some(format!(
+                    "carries {} diagnostic(s) that mention no marker, but text of version {v} lexes and parses and nothing it imports is ever broken",
+                    m.n_unmarked
+                ));
+            }
+            if let Some(b) = bad {
+                fails.push(Fail { key: "diagnostics:wrong-text".into(), what: format!("uri {u}: publishDiagnostics version {v} {b}") });
             }
         }
     }
@@ -982,9 +1101,12 @@ fn publish_inversions(case: &Case, run: &Run) -> u32 {
         let mut high = 0i64; // highest history position (= version number) whose effect has been published
         let mut seen_closes = 0usize;
         let mut inverted = false;
+        let imported = case.imported(u);
         for m in run.msgs.iter().filter(|m| m.method == "textDocument/publishDiagnostics" && m.uri == Some(u)) {
             let pos = match m.version {
                 Some(v) => v,
+                // importers publish unversioned reports for a dependency that is not open: not a close
+                None if imported => continue,
                 None => {
                     let p = closes.get(seen_closes).copied().unwrap_or(0) as i64;
                     seen_closes += 1;
@@ -1006,7 +1128,7 @@ fn publish_inversions(case: &Case, run: &Run) -> u32 {
 // ------------------------------------------------------------------------------------------------ driver
 
 fn effective_case(case: &Case, run: &Run) -> Case {
-    Case { n_uris: case.n_uris, exec: case.exec, ops: case.ops.clone(), sched: run.effective.clone() }
+    Case { n_uris: case.n_uris, exec: case.exec, imports: case.imports.clone(), ops: case.ops.clone(), sched: run.effective.clone() }
 }
 
 fn replay_body(case: &Case, key: &str, what: &str, dir: &Path) -> String {
@@ -1029,7 +1151,20 @@ fn classes_of(case: &Case) -> Vec<&'static str> {
         4..=6 => "history_len_4_6",
         _ => "history_len_7_10",
     });
-    c.push(if case.n_uris == 1 { "uris_1" } else { "uris_2" });
+    c.push(match case.n_uris {
+        1 => "uris_1",
+        2 => "uris_2",
+        _ => "uris_3",
+    });
+    let edges: usize = case.imports.iter().map(|l| l.len()).sum();
+    c.push(match edges {
+        0 => "imports_none",
+        1 => "imports_1_edge",
+        _ => "imports_2_3_edges",
+    });
+    if (0..case.n_uris).any(|u| case.imported(u) && case.ops.iter().any(|o| o.uri == u && o.broken != Broken::No) && case.ops.iter().any(|o| o.uri == u && o.kind != Kind::Close && o.broken == Broken::No)) {
+        c.push("open_dependency_flips_parse_status");
+    }
     c.push(if case.exec == Exec::Free { "executor_free" } else { "executor_serve_loop" });
     if case.ops.iter().any(|o| o.deps > 1) {
         c.push("has_two_dependency_text");
@@ -1070,7 +1205,6 @@ fn main() {
     let args = Args::parse("C18");
     util::install_quiet_panic_hook();
     let mut out = Outcome::new("C18");
-    let strict = std::env::var("VERIF_C18_STRICT").map(|v| v == "1").unwrap_or(false);
     let mut ev = Evidence::new(
         &args,
         "a case is (history of didOpen/didChange/didClose, handler schedule). Non-trivial: during the run some handler \
@@ -1087,22 +1221,18 @@ fn main() {
 
     let dir = vcore::verif_root().join("work").join(format!("c18-{}-{}-{}", args.tier.name(), args.seed, std::process::id()));
     let _ = std::fs::remove_dir_all(&dir);
-    if std::fs::create_dir_all(&dir).is_err() || std::fs::write(dir.join("dep.incn"), DEP_SOURCE).is_err() || std::fs::write(dir.join("dep2.incn"), DEP2_SOURCE).is_err() {
+    if std::fs::create_dir_all(&dir).is_err() || std::fs::write(dir.join("dep.incn"), DEP_SOURCE).is_err() || std::fs::write(dir.join("dep2.incn"), DEP2_SOURCE).is_err() || (0..NAMES.len()).any(|u| std::fs::write(dir.join(format!("doc_{}.incn", NAMES[u])), disk_text(u)).is_err()) {
         out.inconclusive(&format!("cannot create scratch directory {}", dir.display()));
         std::process::exit(out.finish(&ev));
     }
     let dir = dir.canonicalize().unwrap_or(dir);
-    let code = run_main(&args, &mut out, &mut ev, &dir, strict);
+    let code = run_main(&args, &mut out, &mut ev, &dir);
     let _ = std::fs::remove_dir_all(&dir);
     let _ = code;
     std::process::exit(out.finish(&ev));
 }
 
-fn tolerated(out: &Outcome, strict: bool, key: &str) -> bool {
-    !strict && out.is_known(key)
-}
-
-fn run_main(args: &Args, out: &mut Outcome, ev: &mut Evidence, dir: &Path, strict: bool) -> i32 {
+fn run_main(args: &Args, out: &mut Outcome, ev: &mut Evidence, dir: &Path) -> i32 {
     // ---- oracle self-check: a sequential run of a fixed history must satisfy the oracle's positive legs, and the
     //      marker / version extraction must see what the texts contain (otherwise the verdicts mean nothing)
     {
@@ -1110,10 +1240,11 @@ fn run_main(args: &Args, out: &mut Outcome, ev: &mut Evidence, dir: &Path, stric
         let c = Case {
             n_uris: 2,
             exec,
+            imports: vec![vec![1], vec![]],
             ops: vec![
-                Op { uri: 0, kind: Kind::Open, version: 1, markers: 2, broken: Broken::No, deps: 2 },
-                Op { uri: 1, kind: Kind::Open, version: 2, markers: 0, broken: Broken::No, deps: 1 },
-                Op { uri: 1, kind: Kind::Close, version: 3, markers: 0, broken: Broken::No, deps: 1 },
+                Op { uri: 0, kind: Kind::Open, version: 1, markers: 2, broken: Broken::No, deps: 2, imports: vec![1] },
+                Op { uri: 1, kind: Kind::Open, version: 2, markers: 0, broken: Broken::No, deps: 1, imports: vec![] },
+                Op { uri: 1, kind: Kind::Close, version: 3, markers: 0, broken: Broken::No, deps: 1, imports: vec![] },
             ],
             // strictly sequential: every handler runs to completion (with the socket drained) before the next starts
             sched: (0..3usize)
@@ -1145,7 +1276,7 @@ fn run_main(args: &Args, out: &mut Outcome, ev: &mut Evidence, dir: &Path, stric
             ev.case(None);
             ev.class("sequential_control_case");
             for f in fails {
-                if tolerated(out, strict, &f.key) || out.seen(&f.key) {
+                if out.seen(&f.key) {
                     continue;
                 }
                 let body = replay_body(&c, &f.key, &f.what, dir);
@@ -1198,11 +1329,6 @@ fn run_main(args: &Args, out: &mut Outcome, ev: &mut Evidence, dir: &Path, stric
             return 2;
         }
         for f in judge(&case, &run) {
-            if tolerated(out, strict, &f.key) {
-                out.known_replayed(&f.key, true);
-                ev.exclude(&f.key);
-                continue;
-            }
             let body = replay_body(&case, &f.key, &f.what, dir);
             out.violation(ev, &f.key, "json", &body, &f.what);
         }
@@ -1223,7 +1349,42 @@ fn run_main(args: &Args, out: &mut Outcome, ev: &mut Evidence, dir: &Path, stric
             .unwrap_or(false);
         out.known_replayed(&e.key, still);
     }
-    let allow_broken_latest = strict || !out.is_known("stale-kept:syntax-error");
+    let allow_broken_latest = !out.is_known("stale-kept:syntax-error");
+
+    // ---- regression cases: canonical inputs of the defects fixed in dcfca60 (and any other file in known/C18)
+    {
+        let kdir = vcore::verif_root().join("known").join("C18");
+        let mut files: Vec<PathBuf> = std::fs::read_dir(&kdir)
+            .map(|rd| rd.flatten().map(|e| e.path()).filter(|p| p.extension().is_some_and(|e| e == "json")).collect())
+            .unwrap_or_default();
+        files.sort();
+        let open_replays: Vec<PathBuf> = known.iter().map(|e| e.replay.clone()).collect();
+        for f in files {
+            if open_replays.contains(&f) {
+                continue; // handled above as an open known finding
+            }
+            let Some(case) = std::fs::read_to_string(&f).ok().and_then(|t| serde_json::from_str::<Value>(&t).ok()).and_then(|v| case_from_json(&v))
+            else {
+                continue;
+            };
+            let run = execute(&case, dir, false);
+            if run.hung || run.setup_error.is_some() {
+                out.inconclusive(&format!("regression case {} did not reach quiescence", f.display()));
+                continue;
+            }
+            let nontrivial = run.overtakes > 0 || publish_inversions(&case, &run) > 0;
+            ev.case(if nontrivial { Some(util::hash_of(&(&case.ops, &run.effective))) } else { None });
+            ev.class("regression_canonical_input");
+            for fl in judge(&case, &run) {
+                if out.seen(&fl.key) {
+                    ev.violations += 1;
+                    continue;
+                }
+                let body = replay_body(&case, &fl.key, &fl.what, dir);
+                out.violation(ev, &fl.key, "json", &body, &format!("regression case {}\n{}", f.display(), fl.what));
+            }
+        }
+    }
 
     // ---- generated cases
     let total = args.tier.pick(6_000usize, 500_000usize);
@@ -1341,10 +1502,6 @@ fn run_main(args: &Args, out: &mut Outcome, ev: &mut Evidence, dir: &Path, stric
                 *sig_by_exec.entry(format!("{}/{}", if case.exec == Exec::Free { "free" } else { "serve_loop" }, key)).or_insert(0) += 1;
             }
             for key in keys {
-                if tolerated(out, strict, &key) {
-                    ev.exclude(&key);
-                    continue;
-                }
                 if out.seen(&key) {
                     ev.violations += 1;
                     continue;
@@ -1362,7 +1519,7 @@ fn run_main(args: &Args, out: &mut Outcome, ev: &mut Evidence, dir: &Path, stric
                 };
                 let r = execute(&small.0, dir, false);
                 // minimise on the self-contained schedule (everything that was executed, quiescence phase included)
-                let eff = minimise_case(&Case { n_uris: small.0.n_uris, exec: small.0.exec, ops: small.0.ops.clone(), sched: r.full.clone() }, &key, dir);
+                let eff = minimise_case(&Case { n_uris: small.0.n_uris, exec: small.0.exec, imports: small.0.imports.clone(), ops: small.0.ops.clone(), sched: r.full.clone() }, &key, dir);
                 let r2 = execute(&eff, dir, false);
                 let what = judge(&eff, &r2)
                     .iter()
@@ -1387,8 +1544,7 @@ fn run_main(args: &Args, out: &mut Outcome, ev: &mut Evidence, dir: &Path, stric
     ev.set("max_in_flight_histogram", json!({"1": conc_hist[1], "2": conc_hist[2], "3": conc_hist[3], "4": conc_hist[4], "0": conc_hist[0]}));
     ev.set("handler_polls", json!(total_polls));
     ev.set("client_messages", json!(total_msgs));
-    ev.set("strict_mode", json!(strict));
-    // every failing case by executor and signature, tolerated known findings included
+    // every failing case by executor and signature
     ev.set("failing_cases_by_executor_and_signature", json!(sig_by_exec));
     if ev.evaluations > 0 && (overtake_cases as f64) < 0.30 * ev.evaluations as f64 {
         out.inconclusive(&format!("generator drift: only {overtake_cases} of {} cases are non-trivial (< 30 %)", ev.evaluations));
@@ -1482,7 +1638,7 @@ fn without_op(case: &Case, i: usize) -> Option<Case> {
             other => sched.push(other),
         }
     }
-    Some(Case { n_uris: case.n_uris, exec: case.exec, ops, sched })
+    Some(Case { n_uris: case.n_uris, exec: case.exec, imports: case.imports.clone(), ops, sched })
 }
 
 /// After proptest shrinking: greedy delta-debugging on the effective form (drop history entries, drop schedule
@@ -1556,15 +1712,33 @@ fn minimise_case(case: &Case, key: &str, dir: &Path) -> Case {
                 }
             }
         }
-        // single URI, versions 1..n
+        // no imports between the documents
+        if cur.imports.iter().any(|l| !l.is_empty()) {
+            let mut t = cur.clone();
+            t.imports = vec![Vec::new(); t.n_uris];
+            for o in t.ops.iter_mut() {
+                o.imports.clear();
+            }
+            if fails(&t) {
+                cur = t;
+                changed = true;
+            }
+        }
+        // fewest URIs (only when the documents are independent), versions 1..n
         let mut t = cur.clone();
+        let independent = t.imports.iter().all(|l| l.is_empty());
         let used: BTreeSet<usize> = t.ops.iter().map(|o| o.uri).collect();
         let remap: BTreeMap<usize, usize> = used.iter().enumerate().map(|(k, u)| (*u, k)).collect();
         for (k, o) in t.ops.iter_mut().enumerate() {
-            o.uri = remap[&o.uri];
+            if independent {
+                o.uri = remap[&o.uri];
+            }
             o.version = k as i32 + 1;
         }
-        t.n_uris = used.len().max(1);
+        if independent {
+            t.n_uris = used.len().max(1);
+            t.imports = vec![Vec::new(); t.n_uris];
+        }
         if (t.n_uris != cur.n_uris || t.ops != cur.ops) && fails(&t) {
             cur = t;
             changed = true;
